@@ -45,6 +45,19 @@ func (tg *txnGen) fresh() string {
 func (tg *txnGen) refAtom(rt string, pending map[string][]string) val.Atom {
 	cands := append(tg.uuidsOf(rt), pending[rt]...)
 	if len(cands) == 0 || tg.g.Chance(tg.dangling) {
+		if tg.g.Chance(0.4) {
+			// the uuid of a row of another table: missing from the table the column refers to all the same
+			var others []string
+			for _, t := range tg.sc.Tables {
+				if t.Name != rt {
+					others = append(others, tg.uuidsOf(t.Name)...)
+					others = append(others, pending[t.Name]...)
+				}
+			}
+			if len(others) > 0 {
+				return val.Uuid(others[tg.g.Intn(len(others))])
+			}
+		}
 		return val.Uuid(gen.UUIDn(900000 + tg.g.Intn(3)))
 	}
 	return val.Uuid(cands[tg.g.Intn(len(cands))])
